@@ -139,7 +139,7 @@ def _run_forked(mod, work, nproc, seen_event, deadline):
             os.close(w)
             running[r] = [pid, task, time.time(), b""]
         if seen_event.is_set() and grace_until is None:
-            grace_until = time.time() + 30
+            grace_until = time.time() + 120
             pending.clear()
         rl, _, _ = select.select(list(running), [], [], 0.5)
         for fd in rl:
@@ -230,6 +230,11 @@ def run_check(mod, tier, seed):
             extras.append(out.extra)
     if pre_violation is not None:
         violations.append(pre_violation)
+    if _bmc.VIOLATION_SEEN.is_set() and not violations:
+        # a worker confirmed a violation and the other configurations were cancelled, but its record did not arrive
+        # (it was still busy when the grace period ended): nothing may be concluded from this run
+        errors.append(({}, "a worker signalled a confirmed violation but was cancelled before it reported it; "
+                           "the remaining configurations were not explored"))
     wall = time.time() - t0
 
     # ---- classify violations against the committed known-findings list ---------------------------
